@@ -131,6 +131,33 @@ Section Agree.
       split; [destruct (p_rand_port ph); [reflexivity|]; destruct (lv <? 3); discriminate|reflexivity].
   Qed.
 
+  (* ---------- twins of one message ---------- *)
+  (* the registration of one family does not depend on which other families the message asks
+     for, nor on their order (nothing is shared between the derivations) *)
+  Lemma twin_independent : forall lv secret cfg pre post f t wire,
+    nth_error (station_message hm src src_seed src_int63 sorter lv secret cfg (pre ++ f :: post) t wire) (length pre)
+    = Some (station_g lv secret cfg f t wire).
+  Proof.
+    intros. unfold station_message. rewrite map_app, nth_error_app2 by (rewrite map_length; apply le_n).
+    rewrite map_length, PeanoNat.Nat.sub_diag. reflexivity.
+  Qed.
+
+  (* the identification secret (tag, obfs4 key material) is the same for every family of a message *)
+  Lemma twins_share_ident : forall lv secret cfg f1 f2 t wire d1 d2,
+    station_g lv secret cfg f1 t wire = Ok d1 -> station_g lv secret cfg f2 t wire = Ok d2 ->
+    d_ident d1 = d_ident d2.
+  Proof.
+    intros lv secret cfg f1 f2 t wire d1 d2 H1 H2. unfold station_derive in *.
+    destruct (station_keys hm lv secret) as [[seed rd]|]; [|discriminate].
+    destruct (lift_sel (select_gen hm src src_seed src_int63 sorter seed cfg lv f1)) as [ph1| |]; try discriminate.
+    destruct (lift_sel (select_gen hm src src_seed src_int63 sorter seed cfg lv f2)) as [ph2| |]; try discriminate.
+    destruct (station_parse_params t lv wire) as [p| |]; try discriminate.
+    destruct (station_port hm t p seed lv (p_rand_port ph1)) as [port1| |]; try discriminate.
+    destruct (station_port hm t p seed lv (p_rand_port ph2)) as [port2| |]; try discriminate.
+    destruct (ident_of hm t secret rd) as [i| |]; try discriminate.
+    inversion H1; inversion H2; subst. reflexivity.
+  Qed.
+
   (* ---------- no panic ---------- *)
   Lemma port_select_no_panic : forall pmin pmax seed, pmin < pmax -> port_select hm pmin pmax seed <> Panic.
   Proof.
